@@ -51,7 +51,7 @@ prop('C03', level='proof',
 prop('C01', level='proof',
      claim='Half (a) of C01: the 12 step contracts ARE the reference small-step semantics of the bytecode (zeroed frames, copy/constant, x+c, truncated x-c, jumps, call-by-value with fresh zeroed locals, result copied to the caller\'s target, HALT stops) and are proved on the real VM::executeSingle without bound. Half (b) (lowering schemas of gen.cpp) per function where built; the simulation argument joining the halves is not machine-checked.',
      note='Trusted: container model, CBMC. Macros, sugar, includes and the step-budget clause are not decided.',
-     explanation='Half (b), per function with callees replaced: dispatchLoop (own counter, decrement + jump back), dispatchWhile (jump back to its own start label), dispatchGoto/dispatchMark (mark table), dispatchAssign, dispatchValue (copy = ADD 0, constant load, call sequence), backpatch, fetch*. Half (a): ' + STEP_NOTE + 'C01(a): functional ensures clauses (new ip, written word, untouched words via the assigns clause, new activation record) per opcode.',
+     explanation='Half (b), per function with callees replaced: dispatchVoid (each statement kind goes to its own routine exactly once; a sequence generates left then right; STOP is HALT; gen_ast dispatches exactly the root of an error-free tree), dispatchLoop (own counter, decrement + jump back; the back edge targets the JMPC on the counter that precedes the body, the exit label is the end of the construct), dispatchWhile (jump back to its own start label, which is the first instruction of the condition code; exit test before the body), dispatchGoto/dispatchMark (mark table), dispatchAssign, dispatchValue (copy = ADD 0, constant load, call sequence), backpatch, fetch*. Half (a): ' + STEP_NOTE + 'C01(a): functional ensures clauses (new ip, written word, untouched words via the assigns clause, new activation record) per opcode.',
      not_decided='lowering correctness as a whole (simulation), macros, includes', trusted=VM_TRUST)
 
 prop('C05', level='proof',
@@ -98,13 +98,13 @@ SCAN_TRUST = ['scan unit: the flex scanner is outside - yylex is a trusted contr
 prop('C07', level='proof',
      claim='Mechanisms only: a site is emitted exactly when generation moves to another line/file, never for __standards__ (advanceLine); labels resolve to the site just emitted (getMarkPos); END keywords are kept as NAME nodes made from the END token itself (matchmk contract: node carries the position of the token under the cursor); getCurrentBreak reports the table entry of the instruction just passed.',
      note='The sequence of stops of a whole stepping run and the source-level values at each stop are NOT decided (needs the simulation argument of C01). advanceLine is bounded in the number of table entries (see C08).',
-     explanation='Groups gen_getMarkPos, genB_advanceLine, genB_breakpoint, parse_matchmk, parse_mk, parse_P, parse_S, dbg_getCurrentBreak, dbg_getActivations.',
+     explanation='Groups gen_getMarkPos, genB_advanceLine, genB_breakpoint, gen_dispatchVoid (advanceLine is consulted first for every node; the PROGRAM header site is taken back before the program is generated and for no other statement), gen_dispatchWhile/gen_dispatchLoop (the header site lies before the loop head: visited once per entry), gen_dispatchMark, dbg_reset (no activation survives a reset), parse_matchmk, parse_mk, parse_P, parse_S, dbg_getCurrentBreak, dbg_getActivations.',
      not_decided='whole-run stepping sequence; getActivationVariables; popSymbols stack maps', trusted=GEN_TRUST + PARSE_TRUST)
 
 prop('C02', level='proof',
      claim='Parser: every descent function (S, P, PORTS, OPORTS, ARGS, MARGS, MOREP, VALUE, VARGS, MVARGS, expected_end_or_semicolon) and ParseState::lookahead/match/matchmk and AST::mk are memory safe for every token array ending in EOF, never move the cursor past EOF or backwards, only grow the error list, return either no node or a freshly recorded node exactly as documented - with callees replaced by contracts, so every dereference of a callee result is checked against what the callee may return. Literal conversion (strToInt) reports a range error exactly for values >= 2^31-1. Scanner driver (Theo::scan, bounded stand-in): memory safe, ends the stream with one EOF token located at the last scanned token (or main:1 / the placeholder when nothing was scanned). Macro helpers: cursor clamping at the end of input; the insertion index validated at extraction time equals the one used at application time.',
      note='Not decided: termination of the recursion and work bounds, leak freedom beyond "every node is recorded in all_allocated_nodes", error locations, the scanner, macro extraction/application, Theo::parse/gen drivers, dispatch* null-safety (the historical PORTS defect was repaired by fix ffe592a). Three genuine defects were repaired (known_findings.txt).',
-     explanation='Contracts in contracts/parse.c; pre-state built by the harness; match\'s recovery loop and expected_end_or_semicolon\'s loop are closed by loop contracts.',
+     explanation='Contracts in contracts/parse.c, contracts/scan.c, contracts/macro.c, contracts/gen_drv.c (dispatchVoid: absent subtrees generate nothing, unknown node kinds are reported as MALFORMED_AST; gen_ast, bounded: a tree with errors generates no code and every parser error is forwarded with message and location); pre-state built by the harness; match\'s recovery loop and expected_end_or_semicolon\'s loop are closed by loop contracts.',
      not_decided='lexer, macro engine, gen_ast/gen drivers, termination', trusted=PARSE_TRUST + GEN_TRUST + SCAN_TRUST)
 
 prop('C04', level='proof',
@@ -121,9 +121,9 @@ prop('C15', level='proof',
      not_decided='termination; completeness of reports; Theo::parse file_requests collection; lexer', trusted=SCAN_TRUST)
 
 prop('C18', level='proof',
-     claim='Sequential half only: every function under contract (the VM step/debugger functions, the generator state functions and dispatch functions, the parser descent functions, the macro cursor helpers, the scanner driver) writes nothing outside its assigns clause, and every assigns clause names only state reached through the function\'s own arguments (the VM / GenState / ParseState / ExtractionState object, result objects) and verification ghosts - never static storage of the library. Such a function cannot carry information from one call, compilation or VM instance to another except through the objects it is given, so equal inputs give equal outputs and distinct VM instances do not influence one another through these functions.',
+     claim='Sequential half only: the library sources define no mutable static storage (syntactic scan; the two message tables are never written), and every function under contract (the VM step/debugger functions, the generator state functions and dispatch functions, the parser descent functions, the macro cursor helpers, the scanner driver) writes nothing outside its assigns clause, and every assigns clause names only state reached through the function\'s own arguments (the VM / GenState / ParseState / ExtractionState object, result objects) and verification ghosts - never static storage of the library. Such a function cannot carry information from one call, compilation or VM instance to another except through the objects it is given, so equal inputs give equal outputs and distinct VM instances do not influence one another through these functions.',
      note='NOT decided: thread schedules and data races (outside CBMC contracts - no thread support in the contract machinery), functions that are not under contract (apply_macros and the LR machinery, Theo::parse/gen/compile drivers, the flex scanner and its reentrancy, VM constructor copying the program), nondeterminism of iteration order inside std::map/std::set (modelled as arbitrary). The frame obligations of bounded stand-in groups are listed separately and not counted.',
-     explanation='All obligation groups except the layout groups; only obligations of class "assigns" (DFCC write-set inclusion checks generated for every assignment, call and loop of the function under contract) are attributed to C18.',
+     explanation='Group static_storage (tools/staticscan.py, a supporting static fact: every `static`/`thread_local` declaration and every namespace-scope variable definition of the library sources is examined - functions, const objects and never-written tables pass, a mutable static local / static data member / file-static object / written global fails). All other obligation groups except the layout groups: only obligations of class "assigns" (DFCC write-set inclusion checks generated for every assignment, call and loop of the function under contract) are attributed to C18.',
      not_decided='thread schedules, races, functions outside contracts', trusted=GEN_TRUST + PARSE_TRUST + SCAN_TRUST)
 
 HOOK_COMMITS = ['019397c']
